@@ -370,8 +370,12 @@ def job_docs(kind, arg):
             last = text
     elif kind == 'pairs':
         shard, nshards, quick = arg
-        for key, f in G.pair_documents(shard, nshards):
-            if quick and (key[3] != 3 or key[2] not in ('none', 'args-with-placeholders')):
+        kept = 0
+        for key, f in G.pair_documents():
+            if quick and (key[3] not in (1, 3) or key[2] not in ('none', 'args-with-placeholders')):
+                continue
+            kept += 1
+            if kept % nshards != shard:
                 continue
             text, exp, r = M.render(f)
             if not M.roles_ok(r):
@@ -405,9 +409,9 @@ def run(ctx):
     nb = len(G.base_documents())
     ctx.level('model base documents x 5 layouts', [job_docs.job('base', [b]) for b in range(nb)])
     ctx.level('noisy documents: witness prefix . line', [job_docs.job('noisy', (pi,)) for pi in range(len(DS.prefixes()))])
-    ctx.level('pairs of feature modules', [job_docs.job('pairs', (s, 16, ctx.quick)) for s in range(16)])
+    ctx.level('pairs of feature modules', [job_docs.job('pairs', (s, 64, ctx.quick)) for s in range(64)])
     n = ctx.pick(4, 6)
-    ctx.level('structure documents N<=%d' % n, [job_docs.job('structure', (n, s, 16)) for s in range(16)])
+    ctx.level('structure documents N<=%d' % n, [job_docs.job('structure', (n, s, 192)) for s in range(192)])
 
 
 def replay(case):
